@@ -420,6 +420,7 @@ Definition lstep (l : lst) (a : lact) : option lst :=
   | LGcEnd =>
     match lph l with
     | GUnlock => if Nat.eqb (lnext l) nb then Some (mkL (lt l) (lb l) GIdle 0) else None
+    | GSweep => if Nat.eqb nb 0 then Some (mkL (lt l) (lb l) GIdle 0) else None   (* no bucket at all *)
     | _ => None
     end
   | LAdd b args vals =>
@@ -456,23 +457,6 @@ Fixpoint lrun (l : lst) (log : list lact) : option lst :=
   | [] => Some l
   | a :: r => match lstep l a with Some l' => lrun l' r | None => None end
   end.
-
-(** executable form of the log-level invariant: every determined entry names stored nodes
-    only, buckets held by the collector are empty *)
-Definition lentry_ok_b (t : ctable) (le : lentry) : bool :=
-  match le with LFull args vals => ledges_ok_b t args vals | _ => true end.
-
-Fixpoint lclaimed_empty_b (ph : gphase) (next nb : nat) (i : nat) (l : list lentry) : bool :=
-  match l with
-  | [] => true
-  | le :: r =>
-    (if gc_claimed_b ph next nb i then match le with LEmpty => true | _ => false end else true)
-    && lclaimed_empty_b ph next nb (S i) r
-  end.
-
-Definition linv_b (l : lst) : bool :=
-  forallb (lentry_ok_b (lt l)) (lb l)
-  && lclaimed_empty_b (lph l) (lnext l) (length (lb l)) 0 (lb l).
 
 (** ** the projection of the full model onto the log *)
 
